@@ -384,8 +384,19 @@ func runCheck(prop, repo, verif, tier, only string, updateBaseline, verbose, noE
 	for round := 0; round < 3; round++ {
 		added := false
 		for _, ct := range e.cs.contracts {
-			if !ct.lemma || !x.usedLemmas[ct.label()] {
+			if ct.lemma && !x.usedLemmas[ct.label()] {
 				continue
+			}
+			if !ct.lemma {
+				// a contract that was applied at a call site carries the caller's property: it is
+				// proved in the same run whatever properties it is tagged with (a caller is checked
+				// against the callee's contract, so the callee's body must be checked against it too)
+				if !x.usedContracts[ct.label()] || ct.trusted != "" || only != "" {
+					continue
+				}
+				if tier == "quick" && ct.opts["thorough"] != "" {
+					continue
+				}
 			}
 			already := false
 			for _, c := range cts {
